@@ -362,4 +362,122 @@ theorem siteW_sound (P : Progs) (stk : List Frame) (h : siteW P stk = true) (i l
     simp only [absW, settle_next, pointW, Sym.conc, h1, h2, h3]
   · cases h
 
+theorem absM_next (P : Progs) (stk : List Frame) (i l r len : Nat) :
+    absM P len ⟨nextStack P stk true, i, l, r⟩ = pointM P ((after P stk (decide (i < l)) (decide (i < len))).conc i l r len) := by
+  unfold absM; rw [settle_next]
+
+theorem siteM_sound (P : Progs) (stk : List Frame) (h : siteM P stk = true) (i l r : Nat) (g : Shared) (nw : Nat)
+    (hl : phaseA (pointM P ⟨stk, i, l, r⟩) = false → l = g.len) :
+    (absM P g.len (opStep P nw ⟨stk, i, l, r⟩ g).1, (opStep P nw ⟨stk, i, l, r⟩ g).2) =
+        mstepLocal (pointM P ⟨stk, i, l, r⟩) g nw ∧
+      (phaseA (absM P g.len (opStep P nw ⟨stk, i, l, r⟩ g).1) = false →
+        (settle P g.len settleFuel (opStep P nw ⟨stk, i, l, r⟩ g).1).length = g.len) := by
+  unfold siteM at h
+  split at h
+  · -- storeIndex 0
+    rename_i ho
+    obtain ⟨h1, h2, h3, h4⟩ := chk_spec _ _ _ _ _ _ _ (all4_spec _ h (decide (i < l)) (decide (i < g.len)))
+    simp only [opStep, pointM, ho, mstepLocal, absM_next, Sym.conc, h1]
+    simp [phaseA]
+  · -- storeTC 1
+    rename_i ho
+    obtain ⟨h1, h2, h3, h4⟩ := chk_spec _ _ _ _ _ _ _ (all4_spec _ h (decide (i < l)) (decide (i < g.len)))
+    simp only [opStep, pointM, ho, mstepLocal, absM_next, Sym.conc, h1]
+    simp [phaseA]
+  · -- incRound
+    rename_i ho
+    obtain ⟨h1, h2, h3, h4⟩ := chk_spec _ _ _ _ _ _ _ (all4_spec _ h (decide (i < l)) (decide (i < g.len)))
+    simp only [opStep, pointM, ho, mstepLocal, absM_next, settle_next, Sym.conc, h1, h4 true rfl]
+    simp
+  · -- fetchIndex
+    rename_i ho
+    have hl' : l = g.len := hl (by simp [pointM, ho, phaseA])
+    subst hl'
+    obtain ⟨h1, h2, h3, h4⟩ := chk_spec _ _ _ _ _ _ _ (all4_spec _ h (decide (g.ci < g.len)) (decide (g.ci < g.len)))
+    by_cases hc : g.ci < g.len
+    · simp only [hc, decide_true, if_true] at h1
+      simp only [opStep, pointM, ho, mstepLocal, absM_next, settle_next, Sym.conc, hc, decide_true, h1, if_true]
+      simp
+    · simp only [hc, decide_false] at h1
+      simp only [opStep, pointM, ho, mstepLocal, absM_next, settle_next, Sym.conc, hc, decide_false, h1, if_false]
+      simp
+  · -- callFun
+    rename_i ho
+    have hl' : l = g.len := hl (by simp [pointM, ho, phaseA])
+    subst hl'
+    obtain ⟨h1, h2, h3, h4⟩ := chk_spec _ _ _ _ _ _ _ (all4_spec _ h (decide (i < g.len)) (decide (i < g.len)))
+    simp only [opStep, pointM, ho, mstepLocal, absM_next, settle_next, Sym.conc, h1]
+    simp
+  · -- waitTCgeN
+    rename_i ho
+    have hl' : l = g.len := hl (by simp [pointM, ho, phaseA])
+    have hset := settled_of_top P stk _ ho rfl
+    have h1 := all4_spec _ h (decide (i < l)) (decide (i < g.len))
+    simp only [decide_eq_true_eq] at h1
+    by_cases hc : nw ≤ g.tc
+    · simp only [opStep, pointM, ho, mstepLocal, absM_next, Sym.conc, hc, if_true, h1]
+      simp [phaseA, topOp]
+    · simp only [opStep, pointM, ho, mstepLocal, hc, if_false]
+      rw [absM_settled P _ _ hset, settle_settled P _ _ _ hset]
+      simp [pointM, ho, hl']
+  · cases h
+
+/-- (worker) the abstraction `.wait (n+1)` does not depend on the data size -/
+def lenIndepW (P : Progs) (stk : List Frame) : Bool :=
+  all4 fun bl bs =>
+    (!decide (topOp P (symSettle P bl bs settleFuel (Sym.start stk)).stack = some .waitRoundEq)) ||
+      decide (symSettle P bl (!bs) settleFuel (Sym.start stk) = symSettle P bl bs settleFuel (Sym.start stk))
+
+theorem pointW_wait (P : Progs) (t : Thread) (n : Nat) (h : pointW P t = .wait (n + 1)) :
+    topOp P t.stack = some .waitRoundEq ∧ t.round = n + 1 := by
+  unfold pointW at h
+  split at h <;> simp_all
+
+theorem absW_len_indep (P : Progs) (t : Thread) (h : lenIndepW P t.stack = true) (len L n : Nat)
+    (hw : absW P len t = .wait (n + 1)) : absW P L t = .wait (n + 1) := by
+  obtain ⟨stk, i, l, r⟩ := t
+  unfold absW at hw ⊢
+  rw [settle_sym] at hw ⊢
+  obtain ⟨htop, hr⟩ := pointW_wait P _ n hw
+  have h1 := all4_spec _ h (decide (i < l)) (decide (i < len))
+  have htop' : topOp P (symSettle P (decide (i < l)) (decide (i < len)) settleFuel (Sym.start stk)).stack = some .waitRoundEq := htop
+  simp only [htop', decide_true, Bool.not_true, Bool.false_or, decide_eq_true_eq] at h1
+  have hy : symSettle P (decide (i < l)) (decide (i < L)) settleFuel (Sym.start stk) =
+      symSettle P (decide (i < l)) (decide (i < len)) settleFuel (Sym.start stk) := by
+    cases hb : decide (i < len) <;> cases hb' : decide (i < L) <;> simp_all
+  rw [hy]
+  have hr' : ((symSettle P (decide (i < l)) (decide (i < len)) settleFuel (Sym.start stk)).conc i l r L).round = n + 1 := hr
+  simp only [pointW]
+  have : ((symSettle P (decide (i < l)) (decide (i < len)) settleFuel (Sym.start stk)).conc i l r L).stack =
+      (symSettle P (decide (i < l)) (decide (i < len)) settleFuel (Sym.start stk)).stack := rfl
+  rw [this, htop', hr']
+
+/-- everything the simulation needs to know about a program environment: closed decidable checks of its control skeleton -/
+structure Tables (P : Progs) : Prop where
+  closedM : ∀ stk ∈ stacksOf P .apply, ∀ b, nextStack P stk b ∈ stacksOf P .apply
+  closedW : ∀ stk ∈ stacksOf P .workerMain, ∀ b, nextStack P stk b ∈ stacksOf P .workerMain
+  fuelM : ∀ stk ∈ stacksOf P .apply, settlesWithin P (settleFuel - 1) stk = true
+  fuelW : ∀ stk ∈ stacksOf P .workerMain, settlesWithin P (settleFuel - 1) stk = true
+  sitesM : ∀ stk ∈ stacksOf P .apply, stk ≠ [] → settledStk P stk = true → siteM P stk = true
+  sitesW : ∀ stk ∈ stacksOf P .workerMain, stk ≠ [] → settledStk P stk = true → siteW P stk = true
+  lenW : ∀ stk ∈ stacksOf P .workerMain, lenIndepW P stk = true
+  entryMem : [⟨.apply, 0⟩] ∈ stacksOf P .apply
+  entry : all4 (fun bl bs =>
+    decide (topOp P (symSettle P bl bs settleFuel (Sym.start [⟨.apply, 0⟩])).stack = some (.storeIndex 0))) = true
+  initMem : [⟨.workerMain, 0⟩] ∈ stacksOf P .workerMain
+  initW : absW P 0 ⟨[⟨.workerMain, 0⟩], 0, 0, 0⟩ = .wait 1
+
+theorem tables (m : Mode) : Tables (progs m) where
+  closedM := by cases m <;> decide
+  closedW := by cases m <;> decide
+  fuelM := by cases m <;> decide
+  fuelW := by cases m <;> decide
+  sitesM := by cases m <;> decide
+  sitesW := by cases m <;> decide
+  lenW := by cases m <;> decide
+  entryMem := by cases m <;> decide
+  entry := by cases m <;> decide
+  initMem := by cases m <;> decide
+  initW := by cases m <;> decide
+
 end SgVerif.C49
